@@ -28,6 +28,13 @@ deriving DecidableEq, Repr
 
 abbrev Workbook := List Sheet
 
+/-- `converters.create_sheet_reader`: which reader serves which `--format` (T1-checked against the
+source on every run: `Props.C14.tables_agree`).  The first three are the offline formats C14
+quantifies over; they are the three readers modelled below. -/
+def formatReaders : List (Str × Str) :=
+  [("csv".toList, "CSVSheetReader".toList), ("xlsx".toList, "XLSXSheetReader".toList),
+   ("json".toList, "JSONSheetReader".toList), ("google_sheets".toList, "GoogleSheetReader".toList)]
+
 inductive SErr
   | invalidDimensions   -- tablib.InvalidDimensions (row length ≠ Dataset.width)
   | noHeaders           -- `data.headers[-1]` on `None` (TypeError): the worksheet has no first row
